@@ -33,7 +33,7 @@ def run(ck: Checker):
     ck.rule('C02-2', 'side-queue pairing: exactly one id enqueued per input handed to Worker.stream, none on short-circuit paths; exactly one id dequeued per output; side queue is FIFO (COUNT)', minimum=6)
     ck.rule('C02-3', 'record-before-send: the ledger store dominates the put on the input queue (PRECEDE)', minimum=2)
     ck.rule('C02-4', 'non-recyclable ids: request ids come from a counter / uuid, never from builtin id() (ORIGIN)', minimum=2)
-    ck.rule('C02-5', 'ensemble catalog: store dominates the member puts; lookup by this message\'s id; result slot = member index; exactly one catalog pop before each emitted result; unknown id emits nothing; member queues built in one loop (PRECEDE+COUNT+AGREE)', minimum=5)
+    ck.rule('C02-5', 'ensemble catalog: store dominates the member puts; lookup by this message\'s id; result slot = member index; one counter increment per stored slot, completion by counter == number of members; exactly one catalog pop before each emitted result; unknown id emits nothing; member queues built in one loop (PRECEDE+COUNT+AGREE)', minimum=6)
     ck.rule('C02-6', 'gather pairing: the future resolved is the one popped with this message\'s id, resolved with this message\'s payload (FRESH)', minimum=2)
 
     for name in server.SERVERS:
@@ -249,6 +249,34 @@ def check_ensemble(ck: Checker, rid: str):
     if slot is None:
         probs.append('no `entry["y"][idx] = y` store found')
     ck.ob(rid, deq, enum.ast.iter, not probs, '; '.join(probs) if probs else f'lookup by `{uid}`, slot `{idx}` = index of the member queue the message came from, payload `{y}`')
+    # the answer counter advances by exactly one per stored slot and decides completion against the member count
+    # (slots start as None and None is a legal member result, so "answered" must never be inferred from slot contents)
+    probs = []
+    if slot is not None:
+        def is_inc(n: Node):
+            a = n.ast
+            return 1 if isinstance(a, ast.AugAssign) and isinstance(a.op, ast.Add) and isinstance(a.value, ast.Constant) and a.value.value == 1 and isinstance(a.target, ast.Subscript) and is_name(a.target.value, zname) else 0
+
+        other = [n for n in dcfg.nodes if isinstance(n.ast, (ast.Assign, ast.AugAssign)) and not is_inc(n) and any(isinstance(t, ast.Subscript) and is_name(t.value, zname) and isinstance(t.slice, ast.Constant) and t.slice.value == 'n' for t in (n.ast.targets if isinstance(n.ast, ast.Assign) else [n.ast.target]))]
+        for n in other:
+            probs.append(f'the answer counter is set by `{norm_text(n.ast)[:60]}` instead of being advanced by one per member answer: counting from slot contents confuses "no answer yet" (None) with a member that answered None — such a request is never completed')
+        res = count_minmax(dcfg, slot.id, is_inc, stop=lambda nid: nid == getn.id or nid == enum.id)
+        for term, (lo, hi) in res.items():
+            if term[0] in ('node', 'back') and (lo, hi) != (1, 1) and not (term[0] == 'node' and dcfg.nodes[term[1]].kind == 'exit_raise'):
+                probs.append(f'after a slot is stored the answer counter advances {lo}..{hi} times before the next message')
+        comp = [n for n in dcfg.nodes if n.kind == 'test' and isinstance(n.ast, ast.Compare) and isinstance(n.ast.left, ast.Subscript) and is_name(n.ast.left.value, zname) and isinstance(n.ast.left.slice, ast.Constant) and n.ast.left.slice.value == 'n']
+        if not comp:
+            probs.append('completion is not decided by the answer counter')
+        for c_ in comp:
+            r = c_.ast.comparators[0]
+            rd = dsc.canon(r)
+            nn_ok = False
+            for n in walk_shallow_func(deq.node):
+                if isinstance(n, ast.Assign) and isinstance(n.targets[0], ast.Name) and n.targets[0].id == rd and isinstance(n.value, ast.Call) and dotted(n.value.func) == 'len' and dsc.canon(n.value.args[0]) == 'self._qouts':
+                    nn_ok = True
+            if not (isinstance(c_.ast.ops[0], ast.Eq) and nn_ok):
+                probs.append(f'completion test `{norm_text(c_.ast)}` does not compare the counter for equality with the number of members')
+        ck.ob(rid, deq, slot.ast, not probs, '; '.join(sorted(set(probs))) if probs else 'one counter increment per stored slot on every path; a request completes when the counter equals the number of members')
     # emits: qout.put((uid, ...)) must be preceded by exactly one catalog.pop(uid) in this message's processing
     qout = 'self._qout'
     emits = []
